@@ -28,8 +28,8 @@ type ckCase struct {
 	Name     string `json:"name"`
 	Hash     string `json:"hash"`
 	HashNil  bool   `json:"hash_nil"`
-	Class    string `json:"class"`   // exact, empty, prefix, extended, bitflip, other
-	Pos      int    `json:"pos"`     // bit position / prefix length / extension length
+	Class    string `json:"class"` // exact, empty, prefix, extended, bitflip, other
+	Pos      int    `json:"pos"`   // bit position / prefix length / extension length
 	FileSize int    `json:"file_size"`
 	FileSeed int    `json:"file_seed"`
 	History  string `json:"history"` // "", "tamper-after-ok" (same SecureConfig reused after the file changed in place), "second-client"
